@@ -393,7 +393,18 @@ def _part3(ck, prog):
     if not up_:
         raise AnalysisError("anchor vanished: urlparse(...) in ServerProxy.__init__")
     for (n, c) in up_:
-        okk = len(c.args) == 1 and not c.keywords and prov.origin(ginit_, n, c.args[0]) == ("param", finit.params[1])
+        def _the_url(a_):
+            pu_ = ("param", finit.params[1])
+            if a_ == pu_:
+                return True
+            # a normalising helper of the package that hands a text argument back as it is (bytes decoded, parse results re-assembled)
+            if a_[0] == "call" and a_[1][0] == "global" and len(a_[2]) == 1 and a_[2][0] == pu_ and not a_[3]:
+                hf_ = prog.funcs.get("jsonrpc." + a_[1][1])
+                if hf_ is not None and hf_.params:
+                    return any(isinstance(rv_, ast.Name) and rv_.id == hf_.params[0] for (_rn, rv_) in q.return_sources(hf_)) or \
+                        any(isinstance(x_, ast.Return) and isinstance(x_.value, ast.Name) and x_.value.id == hf_.params[0] for x_ in ast.walk(hf_.node))
+            return False
+        okk = len(c.args) == 1 and not c.keywords and all(_the_url(a_) for a_ in prov.value_alts(prov.origin(ginit_, n, c.args[0])))
         ck.require(okk, "C17.4", "%s: `%s`" % (q.fn(finit), dump(c)[:50]), "urlparse(<the URL given>) with default options",
                    "the URL is split by `%s`: with options (allow_fragments=False, a default scheme) or on another text than the URL "
                    "given, the path / query stored as request target are not those of the URL (a '#fragment' stays in the target)" % dump(c)[:60],
